@@ -7,6 +7,7 @@ All statements are for every number of selected cases, every outcome map and eve
 import ConfModel.Lemmas.Report
 import ConfModel.Lemmas.ReportScript
 import ConfModel.Lemmas.RunLoop
+import ConfModel.Lemmas.FeedbackRun
 import ConfModel.Props.C10
 import ConfModel.Props.C11
 namespace ConfModel.Props.C04
@@ -686,6 +687,72 @@ theorem early_stop_fails (mk : Marks) (w : List FClient)
       exact List.mem_map.2 ⟨b, hb, rfl⟩)
     omega
 
+/-- **A request that was handed over and never answered is never excused.**  If for some case of
+some batch the client runner accepted the request (`sendRequest` returned nil) and its callback
+later carried an error instead of the client's answer — the client read the request and exited
+with status 0, closed its stdout, timed out … — then `Run` returns failure: whatever the marks
+(the case may be known-failing or known-flaky), whatever every other case, batch, server and
+client did, and also when nothing else in the run reports an error (`waitErr = false`, no liveness
+check noticed anything). -/
+theorem accepted_unanswered_fails (mk : Marks) (w : List Client)
+    (hne : ∀ s ∈ allScripts w, 0 < s.cases.length)
+    (hnamed : ∀ s ∈ allScripts w, s.names.length = s.cases.length)
+    (hd : (allNames w).Nodup)
+    (hex : ∀ n ∈ allNames w, (mk.failing n && mk.flaky n) = false)
+    (s : Script) (hs : s ∈ allScripts w) (i : Nat) (hi : i < s.cases.length) (a : Bool)
+    (hc : s.cases[i]? = some (.answer .noresult a)) :
+    Run mk w = false := by
+  cases hr : Run mk w with
+  | false => rfl
+  | true =>
+    exfalso
+    have ha := ((run_success_iff_answers mk w hne hnamed hd hex).1 hr).2 s hs i hi
+    have hn : realAnswer s i = none := by
+      unfold realAnswer
+      split
+      · rfl
+      · split
+        · rw [hc]
+        · rfl
+    simp [answeredOK, hn] at ha
+
+open ConfModel.FeedbackLine ConfModel.ServerRunner.Spec in
+/-- **Feedback of the reference server fails the run, whatever the test case is called.**  If the
+stderr of a started reference server carries — after any complete lines `pre`, before anything
+`post` — the line its printer writes for case i of the batch (`prefixLine`: the test name, `": "`,
+the message, a line break; the name is data, never part of a format), and that case is neither
+known-failing nor known-flaky, then `Run` returns failure, whatever the client answered for it
+(the expected result included).  For every test name the reader's framing can carry: no `": "`
+and no line break inside, no white space in front — format verbs, colons, blanks, slashes,
+anything else are just characters. -/
+theorem feedback_line_fails (mk : Marks) (w : List Client)
+    (hne : ∀ s ∈ allScripts w, 0 < s.cases.length)
+    (hnamed : ∀ s ∈ allScripts w, s.names.length = s.cases.length)
+    (hd : (allNames w).Nodup)
+    (hex : ∀ n ∈ allNames w, (mk.failing n && mk.flaky n) = false)
+    (s : Script) (hs : s ∈ allScripts w) (i : Nat) (hi : i < s.cases.length)
+    (hstart : s.startErr = false) (href : s.isRef = true)
+    (nm text : List Char) (hnm : s.names[i]? = some nm)
+    (hsep : noSep nm = true) (hn : startsClean nm = true) (hnl : oneLine nm = true)
+    (ht : endsClean text = true) (htl : oneLine text = true)
+    (pre : List (List Char)) (hpre : ∀ l ∈ pre, oneLine l = true) (post : List Char)
+    (herr : s.stderr = streamOf pre ++ prefixLine nm text ++ post)
+    (hmark : markOf mk (caseName s i) = .unmarked) :
+    Run mk w = false := by
+  cases hr : Run mk w with
+  | false => rfl
+  | true =>
+    exfalso
+    have ha := ((run_success_iff_answers mk w hne hnamed hd hex).1 hr).2 s hs i hi
+    have hmem : nm ∈ s.names := List.mem_of_getElem? hnm
+    have hrec := recorded_in_stream s.names nm text hmem hsep hn hnl ht htl pre hpre post
+    rw [← herr] at hrec
+    have hnote := notesOf_of_recorded s hstart href i nm text hnm hrec
+    unfold answeredOK at ha
+    cases hk : realAnswer s i with
+    | none => simp [hk] at ha
+    | some k => simp [hk, hnote, hmark] at ha
+
 /-! ### non-vacuity: concrete runs -/
 
 def okServer : ServerFate :=
@@ -759,6 +826,35 @@ example : ((sched demoWorld).1.flatMap writesOf).reverse.Perm ((sched demoWorld)
 /-- hypotheses of `early_stop_fails` -/
 example : (demoClient (some 2) .exit 0 true true).fate.answers = some 2 ∧
     2 < ((demoClient (some 2) .exit 0 true true).batches.map (fun b => b.cases.length)).sum := by decide
+
+/-- hypotheses of `accepted_unanswered_fails`: the client answers "a" and "b", reads the request
+for "c" and exits with status 0 (`late`: the send was accepted); "c" is known-flaky, "b" known-failing;
+nothing else reports an error (`waitErr = false`), yet the run fails -/
+example :
+    let w := compile [demoClient (some 2) .exit 0 false true]
+    let mk : Marks := { failing := fun n => n == "b", flaky := fun n => n == "c" }
+    (allScripts w).map (·.cases) = [[.answer .pass true, .answer .mismatch true], [.answer .noresult true]] ∧
+    w.map (·.waitErr) = [false] ∧ Run mk w = false := by decide
+
+/-- a batch whose reference server complains about case "S/50%off" (the client answered as expected) -/
+def fbWorld (line : List Char) : List Client :=
+  [{ startErr := false, waitErr := false
+     batches := [{ noticed := false
+                   s := { cases := [.answer .pass true, .answer .pass true], isRef := true, useTLS := false,
+                          startErr := false, writeErr := false, closeErr := false, resp := .ok, dies := none,
+                          names := ["S/50%off".toList, "S/other".toList], stderr := line } }] }]
+
+open ConfModel.FeedbackLine in
+/-- hypotheses of `feedback_line_fails` — and what the run looks like when the test name *is* made
+part of the format (`fmt` mangles `50%off` and the arguments; the reader cannot attribute the line):
+the same run succeeds -/
+example :
+    let good := streamOf ["starting".toList] ++ prefixLine "S/50%off".toList "expected compression gzip; instead got identity".toList ++ "bye".toList
+    let mangled := "starting\nS/50%!o(string=gzip)ff: expected compression identity; instead got %!s(MISSING)\nbye".toList
+    let mk : Marks := { failing := fun _ => false, flaky := fun _ => false }
+    Run mk (fbWorld good) = false ∧ Run mk (fbWorld mangled) = true ∧ Run mk (fbWorld []) = true ∧
+    ServerRunner.Spec.noSep "S/50%off".toList = true ∧ startsClean "S/50%off".toList = true ∧
+    markOf mk "S/50%off" = .unmarked := by decide
 
 /-- **The defect the two repairs removed (F03 + F04).**  With the verdict expression of the
 unrepaired `report` (`failed == 0`) and a liveness check that never notices a clean exit (the
